@@ -298,6 +298,15 @@ def checkHistory (model : Bool) (cfg : Cfg) (toks : List String) : Option String
       | .ok r => finish mapExec (convert r mOp (mRet model))
     | k => some s!"unknown kind {k}"
 
+/-- the harness's whole-burst monitors: every counter named here counts events that cannot occur in a
+    linearizable run (argument next to each use).  `none` = a counter is missing / unreadable,
+    `some l` = the non-zero ones, rendered. -/
+def anomalies (counters : String) (keys : List String) : Option (List String) :=
+  keys.foldlM (fun acc k => (fieldNat counters k).map fun n => if n == 0 then acc else acc ++ [s!"{k}={n}"]) []
+
+def burstCounters : List String := ["empty", "panic", "dup", "lost", "invented", "reordered"]
+def stackCounters : List String := ["suspicious", "badwriter"]
+
 def checker (model : Bool) : Checker where
   σ := Cfg
   init := {}
@@ -312,7 +321,7 @@ def checker (model : Bool) : Checker where
     | "call" :: _ => (st, none)
     | "post" :: _ => (st, none)
     | "run" :: _ =>
-      if obs == "skipped" || obs == "" then (st, none)
+      if obs == "skipped" then (st, none)
       else
         let hs := obs.splitOn " | "
         let bad := hs.findSome? fun h =>
@@ -322,11 +331,15 @@ def checker (model : Bool) : Checker where
           | _ => some s!"bad-observation {h}"
         (st, bad)
     | "burst" :: _ =>
-      -- a long permit burst on the linked queue: counters (informative) followed by witness projections
+      -- a long permit burst on the linked queue: counters followed by witness projections
       -- `w <events>` = the burst's history restricted to the calls on a few values (a restriction of a
       -- linearizable FIFO history to the calls on a subset of values is linearizable, so a projection
-      -- that is not linearizable convicts the burst); each is decided by the same search as a history
-      if obs == "skipped" || obs == "" then (st, none)
+      -- that is not linearizable convicts the burst); each is decided by the same search as a history.
+      -- The counters are the harness's monitors over the whole burst; each of them counts events no
+      -- linearizable FIFO queue with unique values can produce (see `anomalies`), so a non-zero counter
+      -- for which no witness convicts (none could be extracted, or more anomalies than witness slots)
+      -- is a rejection as well — never an acceptance.
+      if obs == "skipped" then (st, none)
       else
         let segs := obs.splitOn " | "
         let bad := segs.findSome? fun h =>
@@ -335,13 +348,22 @@ def checker (model : Bool) : Checker where
               s!"{m} (projection of a permit burst onto the calls on a few values): {st.kind} h {" ".intercalate toks}"
           | ["hang"] => some s!"hang: a call on {st.kind} never returned during a burst (all threads were runnable)"
           | _ => none
-        (st, bad)
+        match bad with
+        | some m => (st, some m)
+        | none =>
+          match anomalies (segs.headD "") burstCounters with
+          | none => (st, some s!"bad-observation {segs.headD ""}")
+          | some [] => (st, none)
+          | some l => (st, some s!"permit burst on {st.kind}: {" ".intercalate l} — impossible for a linearizable FIFO queue (every Dequeue held a permit published after an Enqueue had returned; values are unique; the drain ended with `empty`), no small witness projection was extracted: {segs.headD ""}")
     | "cowstack" :: _ =>
       -- a stack burst on a list (one writer, traversing readers): counters, then witnesses
       -- `ws init=<state> <events>`: the writer's calls overlapping one reader call, and that call, from the
       -- state the list had before the first of them (all mutators are the single writer's sequential calls,
-      -- so that state is the same in every linearization); decided against the sequence specification
-      if obs == "skipped" || obs == "" then (st, none)
+      -- so that state is the same in every linearization); decided against the sequence specification.
+      -- Counters: `suspicious` = traversals that panicked or were not strictly increasing (the list is
+      -- strictly increasing at every instant), `badwriter` = answers of the single writer that differ from
+      -- the sequential specification; non-zero without a convicting witness is a rejection.
+      if obs == "skipped" then (st, none)
       else
         let segs := obs.splitOn " | "
         let bad := segs.findSome? fun h =>
@@ -353,7 +375,13 @@ def checker (model : Bool) : Checker where
             | none => some s!"bad-observation {h}"
           | ["hang"] => some s!"hang: a call on {st.kind} never returned during a burst (all threads were runnable)"
           | _ => none
-        (st, bad)
+        match bad with
+        | some m => (st, some m)
+        | none =>
+          match anomalies (segs.headD "") stackCounters with
+          | none => (st, some s!"bad-observation {segs.headD ""}")
+          | some [] => (st, none)
+          | some l => (st, some s!"stack burst on {st.kind}: {" ".intercalate l} — a traversal that panicked or was not strictly increasing although the single writer keeps the list strictly increasing (or a writer answer differing from the sequence specification), no witness was extracted: {segs.headD ""}")
     | _ => (st, some s!"bad-op {op}")
 
 end Driver.Linz
